@@ -750,6 +750,29 @@ def check_kdtree(fx, R):
             R.undecided('N4', cname + '::findNearestNeighbors', 'findNeighbors call not found exactly once')
             continue
         rs = calls[0][1][2]
+        # search parameters: nanoflann::SearchParams(checks, eps = 0, sorted = true).  eps > 0 makes the search approximate - a branch of the tree is skipped when it cannot improve the k-th distance by
+        # more than the factor (1 + eps) - so the indexes returned are not the k nearest points
+        sp_ = calls[0][1][4] if len(calls[0][1]) >= 5 else None
+        for _ in range(3):
+            if isinstance(sp_, str):
+                d_ = [s2 for s2 in st if s2[0] == 'decl' and s2[1] == sp_]
+                sp_ = d_[0][2] if d_ else sp_
+        if isinstance(sp_, tuple) and str(sp_[0]).startswith('new:nanoflann::SearchParams'):
+            eps_ = sp_[2] if len(sp_) >= 3 else 0
+            srt_ = sp_[3] if len(sp_) >= 4 else True
+            if isinstance(eps_, (int, float)) and not isinstance(eps_, bool) and eps_ > 0:
+                R.violated('N4', 'KdTree::findNearestNeighbors:approximate-search', 'the search runs with nanoflann::SearchParams(checks, eps = %s): a positive eps makes the k-nearest search APPROXIMATE - a branch of the '
+                           'tree is not visited when its bounding box is farther than worstDistance / (1 + eps), so a point that is strictly nearer than the reported k-th neighbour (by a relative margin below eps) '
+                           'is left out.  The indexes returned are then not the k nearest points of the cloud, and every quantity built on them (normals, curvatures, correspondences) is that of another neighbourhood '
+                           '[%s]' % (eps_, cname), loc, 'E-STATE')
+            elif isinstance(eps_, (int, float)) and eps_ == 0 and srt_ in (True, 1):
+                R.holds('N4', cname + '::findNearestNeighbors:exact-search', 'SearchParams with eps = 0 (exact search), sorted results', loc, 'E-STATE')
+            elif srt_ in (False, 0) and isinstance(eps_, (int, float)) and eps_ == 0:
+                R.undecided('N4', cname + '::findNearestNeighbors:exact-search', 'SearchParams asks for unsorted results; whether the callers rely on the order is not decided')
+            else:
+                R.undecided('N4', cname + '::findNearestNeighbors:exact-search', 'search parameters %s not readable' % (sp_,))
+        else:
+            R.undecided('N4', cname + '::findNearestNeighbors:exact-search', 'search parameters %s not recognised' % (sp_,))
         decl = [s for s in st if s[0] == 'decl' and s[1] == rs]
         if isinstance(rs, str) and decl and isinstance(decl[0][2], tuple) and str(decl[0][2][0]).startswith('new:nanoflann::KNNResultSet<') and decl[0][2][1:] == ('numberOfNeighbors',) and 'If' not in top:
             R.holds('N4', cname + '::findNearestNeighbors', 'result set is a local built with the requested number of neighbours', loc, 'E-STATE')
